@@ -32,7 +32,7 @@ COMPONENTS = {
              "csv", "io.TextIOWrapper/BufferedReader", "zipfile", "xml.etree.ElementTree", "xlrd"],
     "stub": ["SimFS/SimRaw", "text / ODF / XLSX peers (encoders)", "scheduler-driven client (eager / lazy)"],
 }
-PROBES_REQUIRED = ["cid-given-as-path", "cid-file-rewritten-between-two-uses", "other-data-set-validated-between-construction-and-use", "second-pass-on-the-same-reader", "zero-item-row", "error-inspected-late", "culprit-last-column", "culprit-right-after-header", "short-row", "long-row",
+PROBES_REQUIRED = ["stream-handed-over-behind-a-preamble", "cid-given-as-path", "cid-file-rewritten-between-two-uses", "other-data-set-validated-between-construction-and-use", "second-pass-on-the-same-reader", "zero-item-row", "error-inspected-late", "culprit-last-column", "culprit-right-after-header", "short-row", "long-row",
                    "format:delimited", "format:fixed", "format:ods", "format:excel", "check-rejection"]
 
 
@@ -53,6 +53,7 @@ def generate(seed, tier):
     if fmt in ("delimited", "fixed"):
         source = swarm.choice(["path", "stream", "stringio"])
     return {"io": simfs.IoConfig.draw(swarm), "cid": spec, "table": table, "source": source,
+            "preamble": source != "path" and swarm.random() < 0.3,
             "api": swarm.choice(["Reader", "rows"]),
             "consumer": {"style": swarm.choice(["eager", "lazy"]), "lag": swarm.choice([1, 2, 3, 100])},
             "prepass": swarm.choice([None, None, None, 0, 1, 2, -1]) if source == "path" else None,
@@ -95,7 +96,12 @@ def execute(scenario):
             result.probe("cid-given-as-path")
         source_kind = scenario.get("source", "path")
         file_name = path
-        if source_kind == "stream":
+        if source_kind != "path" and scenario.get("preamble"):
+            # the caller has read a banner line off the stream before handing it over
+            source = lib.stream_behind_preamble(fs, path, raw_bytes, spec.get("encoding", "utf-8"), source_kind)
+            file_name = path if source_kind == "stream" else "<io>"
+            result.probe("stream-handed-over-behind-a-preamble")
+        elif source_kind == "stream":
             source = fs.text_stream(path, encoding=spec.get("encoding", "utf-8"), newline="")
         elif source_kind == "stringio":
             source = io.StringIO(raw_bytes.decode(spec.get("encoding", "utf-8")), newline="")
@@ -228,6 +234,8 @@ def candidates(scenario):
         yield lib.with_value(scenario, ["source"], "path")
     if scenario.get("cid_as_path"):
         yield lib.with_value(scenario, ["cid_as_path"], None)
+    if scenario.get("preamble"):
+        yield lib.with_value(scenario, ["preamble"], False)
     if scenario.get("prepass") is not None:
         yield lib.with_value(scenario, ["prepass"], None)
     if scenario.get("other_data_between"):
